@@ -9,7 +9,7 @@ import json, os, re
 import vlib, evgen, mmlgen
 
 COQ_TARGET = "props/C20.v"
-THEOREMS = ["C20_vlq_reader", "C20_position", "C20_time_roundtrip"]
+THEOREMS = ["C20_vlq_reader", "C20_position", "C20_time_roundtrip", "C20_lines", "C20_file", "C20_position_spec", "C20_printers"]
 DRIVERS = ["dump", "core"]
 RULE = ("compiler outputs for core-language programs, the sample songs and their mutations, TimeBase/TimeSignature/TIME "
         "programs (signatures 2..64 / 2,4,8,16, time bases 48..32767, measures up to 2000); constructed songs written by "
@@ -322,7 +322,7 @@ def valid_event(rng, time, first):
             data = list("".join(rng.choice(["a", "Z", "é", "あ", "😀", " ", "{", "}"]) for _ in range(n)).encode("utf-8"))[:127]
             n = len(data)
         return "M:%d:0:255:%d:%d:%s" % (time, ty, n, evgen.hexs(data))
-    n = rng.choice([0, 1, 4, 20, 100, 125])
+    n = rng.choice([0, 1, 4, 20, 100, 125, 126, 127, 200, 400])   # 127.. : two-byte length (count / position oracle only)
     data = [0xF0] + [rng.randrange(128) for _ in range(n)] + [0xF7]
     return "S:%d:0:0:0:0:%s" % (time, evgen.hexs(data))
 
@@ -478,11 +478,29 @@ def run(ctx):
 
 
 def replay(ctx, obj):
+    """re-runs the failing input through implementation, model and oracle"""
     f = obj.get("failure") or {}
-    print("replay: input =", repr(f.get("input"))[:500])
-    line = f.get("case")
-    if isinstance(line, str) and (line.startswith("dump\t") or line.startswith("read_delta\t")):
-        print("implementation:", show(ctx.impl([line])[0])[:3000])
-        print("model:", show(ctx.model([line])[0])[:3000])
+    inp = f.get("input")
+    print("replay: input =", repr(inp)[:500])
+    hx = None
+    if isinstance(inp, str):
+        if inp.startswith("hex:"):
+            hx = inp[4:]
+        elif inp.startswith("delta:"):
+            line = f.get("case")
+            print("implementation:", ctx.impl([line])[0], " model:", ctx.model([line])[0], " expected:", f.get("expected"))
+        elif inp.startswith("generate\t"):
+            hx = ctx.impl([inp])[0]
+        else:
+            comp = compile_sources(ctx, [inp])
+            hx = comp[0][1] if comp else None
+    if hx:
+        files = [(inp, hx)]
+        got = dump_and_check(ctx, files, "replay")
+        print("bytes:", hx[:2000])
+        print("implementation dump:\n" + show(got[0])[:4000])
     for d in obj.get("broken_correspondence", [])[:2]:
+        line = d.get("case")
         print("correspondence:", str(d)[:1500])
+        if isinstance(line, str) and "\t" in line:
+            correspond(ctx, [line], line.split("\t")[0])
